@@ -632,7 +632,8 @@ impl<'a> PredSucc<'a> for BitVector {
     }
 
     fn predecessor(&'a self, value: usize) -> Self::OneIter {
-        let rank = self.rank(value + 1);
+        // `value + 1` would overflow for `usize::MAX`; any index past the end gives the same rank.
+        let rank = self.rank(value.saturating_add(1));
         if rank == 0 {
             Self::OneIter::empty_iter(self)
         } else {
